@@ -59,6 +59,12 @@ func c18Pinning(canonOnly bool) []c18Atom {
 		}
 	}
 	if !canonOnly {
+		// the literal on the left pins just the same
+		for _, l := range []string{"b", "ab"} {
+			out = append(out, c18Atom{n: gen.Bin("=", gen.Str(l), K()), kind: "eq", set: []string{l}})
+			out = append(out, c18Atom{n: gen.Bin("<=", gen.Str(l), K()), kind: "ge", lo: sp(l)})
+			out = append(out, c18Atom{n: gen.Bin(">=", gen.Str(l), K()), kind: "le", hi: sp(l)})
+		}
 		// the empty literal pins the (single) empty key like any other literal
 		out = append(out, c18Atom{n: gen.Bin("=", K(), gen.Str("")), kind: "eq", set: []string{""}})
 		out = append(out, c18Atom{n: gen.In(K(), gen.Str("")), kind: "in", set: []string{""}})
@@ -99,7 +105,7 @@ func (c18) NumCases(tier string) int {
 func (c18) Exhaustive(tier string) bool { return true }
 
 func (c18) Rule() string {
-	return fmt.Sprintf("all canonical key-pinning shapes (key on the left): %d pinning atoms (=, IN, ^=, >, >=, <, <=, BETWEEN over the pool %v) alone with 0..2 opaque conjuncts in every placement, all ordered pairs of pinning atoms (with and without an opaque conjunct), triples over %d canonical atoms (all in thorough, 20000 sampled in quick), plus `false`; each inside a randomly chosen statement form (select *, short form, field list, aggregate, delete; with and without LIMIT - also with an offset beyond the matches - and ORDER BY) and drained in row and batch mode over a %d-key store dense around every literal. Non-trivial: the statement is satisfiable and storage reads were observed; distinct by statement text.", len(c18All), c18Pool, len(c18Canon), len(c02Universe))
+	return fmt.Sprintf("all canonical key-pinning shapes (key on the left; a few with the literal on the left): %d pinning atoms (=, IN, ^=, >, >=, <, <=, BETWEEN over the pool %v) alone with 0..2 opaque conjuncts in every placement, all ordered pairs of pinning atoms (with and without an opaque conjunct), triples over %d canonical atoms (all in thorough, 20000 sampled in quick), plus `false`; each inside a randomly chosen statement form (select *, short form, field list, aggregate, delete; with and without LIMIT - also with an offset beyond the matches - and ORDER BY) and drained in row and batch mode over a %d-key store dense around every literal. Non-trivial: the statement is satisfiable and storage reads were observed; distinct by statement text.", len(c18All), c18Pool, len(c18Canon), len(c02Universe))
 }
 
 func (c18) Assumptions() []string {
